@@ -73,7 +73,7 @@ def run(run, replay=None):
     quick = run.tier == 'quick'
     cat = Catalog()
     traces = []
-    for n in range(300 if quick else 8000):
+    for n in range(300 if quick else 2500):
         h = domdriver.History(cat, shared_reader=True, shared_writer=rng.random() < 0.7)
         h.new()
         h.new(**domgen.rand_container_attrs(rng, 0))
@@ -87,7 +87,7 @@ def run(run, replay=None):
             run.sample({'live_trees': len(h.trees), 'steps': [(e['k'], e['tid']) for e in h.ev]})
     # twins: two trees with EQUAL content (fresh, unshared values) go through every operation that derives
     # state (generate_stats, serialise, parse); then one of them is changed in place at every position
-    for n in range(60 if quick else 1500):
+    for n in range(60 if quick else 600):
         seed = rng.randrange(1 << 30)
         h = domdriver.History(cat, shared_reader=True, shared_writer=True)
         a = domgen.build_tree(h, random.Random(seed), via_attrs=True)
@@ -122,8 +122,8 @@ def run(run, replay=None):
     from harness import gen
     behs = gen.behaviours('Gen_Dom', {'MaxLen': 3, 'MaxTrees': 2, 'NAttr': 2, 'NVal': 1}, run=run) if not quick else []
     behs += gen.behaviours('Gen_Dom', {'MaxLen': 14 if quick else 24, 'MaxTrees': 3, 'NAttr': 14, 'NVal': 5},
-                           simulate=12 if quick else 300, depth=15 if quick else 25, seed=run.seed + 5, run=run,
-                           limit=350 if quick else 8000)
+                           simulate=12 if quick else 100, depth=15 if quick else 25, seed=run.seed + 5, run=run,
+                           limit=350 if quick else 3000)
     for b in behs:
         h = domdriver.History(cat, shared_reader=True, shared_writer=True)
         domgen.run_history(h, b, rng)
